@@ -263,6 +263,7 @@ package vm
 //@   ensures @C07 run.bytecode: vm.bytecode === old(vm.bytecode) && vm.stack == old(vm.stack) && vm.depth == old(vm.depth)
 //@   ensures @C06 @C07 run.scopes.len: err == nil ==> len(vm.environment.local) == old(len(vm.environment.local))
 //@   ensures @C06 run.scopes.count: count(scopes) >= old(count(scopes))
+//@   statefields VM.fields VM.stack VM.bytecode VM.depth Environment.local
 //@   onpanic @C07 @C08 run.panic.restore: vm.bytecode === old(vm.bytecode) && vm.stack == old(vm.stack) && vm.depth == old(vm.depth)
 //@   panics maybe
 //@ loop 1 invariant run.inv.ip: 0 <= ip
